@@ -11,6 +11,7 @@ CONSTANTS
  DevIgnoreCompleteErr = FALSE
  DevNegAck = FALSE
  DevEmptyAck = FALSE
+ DevDupParts = FALSE
 INIT Init
 NEXT Next
 INVARIANTS C32_Stored C32_Acked
